@@ -38,6 +38,7 @@ class Adapter(EnvAdapter):
         from jumanji.environments.logic.game_2048.types import Observation, State
         from jumanji.types import restart
 
+        inject.need(Game2048, "_get_action_mask")
         states, _ = inject.dump_states(cfg["inject"][0], cfg["inject"][1], limit=None)
         boards = sorted({tuple(tuple(r) for r in s["board"]) for s in states})
         if cfg.get("limit"):
